@@ -372,15 +372,108 @@ func execCase(c Case) (res vt.Result) {
 	if err != nil {
 		return fail("records before: %v", err)
 	}
+	// While a node synchronises, requests keep arriving: right when a node starts sending what it read
+	// from its node database, three collections of other users that this node owns are created on it
+	// (writes to the same bucket of its node database). They are not part of the judged state.
+	var disturbSeq atomic.Int64
+	disturb := func(k int) {
+		name := e.specs[k].Name()
+		made := 0
+		for try := 0; try < 400 && made < 3; try++ {
+			u := fmt.Sprintf("w%dx%d", disturbSeq.Add(1), try)
+			if cluster.RendezvousHash(u, newServers, 1)[0] != name {
+				continue
+			}
+			if err := e.nodes[k].CreateCollection(models.Collection{UserId: u, Id: "dcol", Replicas: 1, UserPlan: plan, IndexSchema: schema}); err == nil {
+				made++
+			}
+		}
+		rec.Count("disturbance_writes_during_sync", int64(made))
+	}
+	inNew := map[int]bool{}
+	for _, k := range c.New {
+		inNew[k] = true
+	}
+	nodeOf := map[string]int{}
+	for k := range e.specs {
+		nodeOf[e.specs[k].Name()] = k
+	}
 	runSync := func() []error {
 		var errs []error
+		if !c.Concurrent {
+			inner := cluster.VerifFaultFn.Load()
+			var mu sync.Mutex
+			seen := map[string]bool{}
+			fn := func(point string, index int) error {
+				if strings.HasPrefix(point, "routefrom:") {
+					src := strings.TrimPrefix(point, "routefrom:")
+					if i := strings.Index(src, ">"); i >= 0 {
+						src = src[:i]
+					}
+					mu.Lock()
+					first := !seen[src]
+					seen[src] = true
+					mu.Unlock()
+					if k, ok := nodeOf[src]; ok && first && inNew[k] {
+						disturb(k)
+					}
+				}
+				if inner != nil {
+					return (*inner)(point, index)
+				}
+				return nil
+			}
+			cluster.VerifFaultFn.Store(&fn)
+			defer cluster.VerifFaultFn.Store(inner)
+		}
 		if c.Concurrent {
+			// All nodes synchronise at once. Each node reads what it has to send and only then sends it;
+			// to make the window between the two matter, the sends are staggered: the node at position p
+			// of the sync order starts sending when p nodes have finished (or after 1.5 s), so that the
+			// later nodes receive records - writes to their node database - while they hold theirs.
+			pos := map[string]int{}
+			for _, k := range c.SyncOrder {
+				if inUnion[k] {
+					pos[e.specs[k].Name()] = len(pos)
+				}
+			}
+			var finished atomic.Int64
+			var onceMu sync.Mutex
+			waited := map[string]bool{}
+			inner := cluster.VerifFaultFn.Load()
+			stagger := func(point string, index int) error {
+				if strings.HasPrefix(point, "routefrom:") {
+					src := strings.TrimPrefix(point, "routefrom:")
+					if i := strings.Index(src, ">"); i >= 0 {
+						src = src[:i]
+					}
+					onceMu.Lock()
+					first := !waited[src]
+					waited[src] = true
+					onceMu.Unlock()
+					if first {
+						deadline := time.Now().Add(1500 * time.Millisecond)
+						for finished.Load() < int64(pos[src]) && time.Now().Before(deadline) {
+							time.Sleep(time.Millisecond)
+						}
+						if k, ok := nodeOf[src]; ok && inNew[k] {
+							disturb(k)
+						}
+					}
+				}
+				if inner != nil {
+					return (*inner)(point, index)
+				}
+				return nil
+			}
+			cluster.VerifFaultFn.Store(&stagger)
 			var wg sync.WaitGroup
 			var mu sync.Mutex
 			for _, k := range running {
 				wg.Add(1)
 				go func(k int) {
 					defer wg.Done()
+					defer finished.Add(1)
 					if err := e.nodes[k].Sync(); err != nil {
 						mu.Lock()
 						errs = append(errs, fmt.Errorf("node %d: %w", k, err))
@@ -389,6 +482,7 @@ func execCase(c Case) (res vt.Result) {
 				}(k)
 			}
 			wg.Wait()
+			cluster.VerifFaultFn.Store(inner)
 			return errs
 		}
 		for _, k := range c.SyncOrder {
